@@ -66,8 +66,14 @@ func instantiate(t *rapid.T, s *shape) interface{} {
 }
 
 func instantiateD(t *rapid.T, s *shape, d int) interface{} {
-	// 8%: deviate from the shape
+	// 8%: deviate from the shape (a scalar, or one of the empty containers only JSON can produce)
 	if d > 0 && rapid.IntRange(0, 11).Draw(t, "dev") == 0 {
+		switch rapid.IntRange(0, 7).Draw(t, "devkind") {
+		case 0:
+			return map[string]interface{}{}
+		case 1:
+			return []interface{}{}
+		}
 		return instScalar(t)
 	}
 	switch s.kind {
